@@ -24,6 +24,13 @@ func init() {
 const rtP = "internal/core/runtime"
 
 func checkC19(c *Ctx) {
+	c.checkFieldWriters("ownership.field-writers", rtP, "index", map[string][]string{
+		"imports": {"(*Runtime).AddInst", "(*Runtime).LoadBuiltin", "newIndex"}, "importsByBuild": {"(*Runtime).AddInst", "(*Runtime).LoadBuiltin", "newIndex"},
+		"nextUniqueID": {"(*index).getNextUniqueID"}, "builtins": {"(*Runtime).Init"},
+	})
+	c.checkFieldWriters("ownership.field-writers", rtP, "Runtime", map[string][]string{
+		"loaded": {"(*Runtime).Init", "(*Runtime).SetBuildData"}, "index": {"(*Runtime).Init"},
+	})
 	// (a) guarded-by
 	c19GuardedVars(c, rtP, []string{"labelMap", "labels"}, "mutex")
 	c19GuardedFields(c, rtP, "index", []string{"imports", "importsByBuild", "nextUniqueID"}, func(recv string) string { return recv + ".lock" })
